@@ -93,8 +93,8 @@ static bool d_acosh(double x) { return x >= 1; }
 static bool d_atanh(double x) { return std::fabs(x) < 1; }
 static bool d_log1p(double x) { return x > -1; }
 static const U1 UNI[5] = {
-    {"asinh", a_real_asinh, b_asinh, r_asinh, d_all}, {"acosh", a_real_acosh, b_acosh, r_acosh, d_acosh}, {"atanh", a_real_atanh, b_atanh, r_atanh, d_atanh},
-    {"expm1", a_real_expm1, b_expm1, r_expm1, d_all}, {"log1p", a_real_log1p, b_log1p, r_log1p, d_log1p}};
+    {"asinh", [](a_real x_) -> a_real { return a_real_asinh(x_); }, b_asinh, r_asinh, d_all}, {"acosh", [](a_real x_) -> a_real { return a_real_acosh(x_); }, b_acosh, r_acosh, d_acosh}, {"atanh", [](a_real x_) -> a_real { return a_real_atanh(x_); }, b_atanh, r_atanh, d_atanh},
+    {"expm1", [](a_real x_) -> a_real { return a_real_expm1(x_); }, b_expm1, r_expm1, d_all}, {"log1p", [](a_real x_) -> a_real { return a_real_log1p(x_); }, b_log1p, r_log1p, d_log1p}};
 
 static uint64_t n_eval, n_nt;
 static const double ULPS = 8; // tolerated error in units of eps*|w| (worst observed on the unchanged tree is recorded in the evidence)
